@@ -274,3 +274,20 @@ var trustedBase = []string{
 	"the Go compiler's bounds-check elimination (prove pass) where rule R-PANIC imports its verdicts",
 	"frozen summaries of external packages (encoding/json, gopkg.in/yaml.v2 v2.4.0, go-openapi/jsonpointer, yudai/golcs, fmt, sort, strings, bytes)",
 }
+
+// Only runs f against a scratch report and keeps the obligations keep accepts:
+// a rule family is attached to a property with exactly the clauses that are
+// necessary conditions of that property.
+func (r *Report) Only(keep func(o Ob) bool, f func(sub *Report)) {
+	sub := NewReport(r.Property)
+	f(sub)
+	for _, o := range sub.Obs {
+		if keep(o) {
+			r.add(o.Rule, o.Key, o.Pos, o.Status, o.Why, o.Detail)
+		}
+	}
+	for k := range sub.Funcs {
+		r.Funcs[k] = true
+	}
+	r.Notes = append(r.Notes, sub.Notes...)
+}
